@@ -678,7 +678,9 @@ func familyCountValues(bases []Val, hi int) []Val {
 // over five block shapes of pairwise different sizes (so that a block packed with another block's
 // size, or twice, moves everything behind it).
 func furtherDIBValues() []Val {
-	shapes := []Blk{{3, pattern(1, 7, 0x31)}, {4, pattern(2, 7, 0x41)}, {5, pattern(40, 7, 0x51)}, {0xFE, pattern(253, 7, 0x61)}, {3, pattern(7, 7, 0x71)}}
+	// (the data-less block is encodable - size 2 - but dropped by the decoder: C15 judges it, C02's
+	// round trip has it outside its domain)
+	shapes := []Blk{{3, pattern(1, 7, 0x31)}, {4, pattern(2, 7, 0x41)}, {5, pattern(40, 7, 0x51)}, {0xFE, pattern(253, 7, 0x61)}, {3, pattern(7, 7, 0x71)}, {4, nil}}
 	base := withDevice(baseSvc("DescriptionRes"))
 	base.Fams = famBytes(2)
 	out := []Val{base}
@@ -695,6 +697,20 @@ func furtherDIBValues() []Val {
 		}
 	}
 	rec(nil, 3)
+	return out
+}
+
+// dataLessBlockValues: the further-block sequences that contain at least one block without data.
+func dataLessBlockValues() []Val {
+	var out []Val
+	for _, v := range furtherDIBValues() {
+		for _, b := range v.Blocks {
+			if len(b.Data) == 0 {
+				out = append(out, v)
+				break
+			}
+		}
+	}
 	return out
 }
 
@@ -787,7 +803,7 @@ func c02Spaces(thorough bool) []*space {
 		listSpace("additional-info-length/L_Data", "TunnelReq and RoutingInd x L_Data.req/con/ind x application/control unit x additional info of every length 0..255 (the 12 cases of length 0 repeat base values of the single-field spaces and are not counted as distinct)",
 			infoLengthValues(ldBases("TunnelReq", "RoutingInd"), 1, 255), infoLengthValues(ldBases("TunnelReq", "RoutingInd"), 0, 0)...),
 		listSpace("raw-body-length", "TunnelReq and RoutingInd x {L_Raw.req, L_Raw.con, L_Raw.ind, L_Busmon.ind, unsupported code 13} x body of every length 0..300", rawLengthValues(rawBases("TunnelReq", "RoutingInd"), 0, 300)),
-		listSpace("further-description-blocks", "DescriptionRes x every sequence of 0..3 further description blocks over five shapes (types 3, 4, 5, 0xFE; 1, 2, 7, 40 and 253 data octets)", furtherDIBValues()),
+		listSpace("further-description-blocks", "DescriptionRes x every sequence of 0..3 further description blocks over six shapes (types 3, 4, 5, 0xFE; 0, 1, 2, 7, 40 and 253 data octets)", furtherDIBValues()),
 		listSpace("service-family-count", "SearchRes and DescriptionRes x every number of service families 0..20", familyCountValues(descrBases(), 20)),
 		listSpace("friendly-name-length", "SearchRes and DescriptionRes x friendly name of every length 0..29 x {ASCII, ISO 8859-1 high half, mixed}", nameLengthValues(descrBases(), 0, 29)),
 		listSpace("friendly-name-characters", "SearchRes and DescriptionRes x every ISO 8859-1 character 01..FF as a one-character name and as the 29th character of a 29-character name (the 6 one-character names that the length space already has are not counted as distinct)", nameChars, nameRepeats...),
